@@ -85,6 +85,43 @@ func Sanitize(c *core.Ctx, rule string, p *packages.Package) {
 						return true
 					})
 				}
+				// locals bound to a component's Clone method value (cloneElem := tclone.Clone) clone like the method itself;
+				// locals bound to an accessor path of the input (repr := gen.To(a)) stand for that part of the input
+				cloneFns := map[types.Object]bool{}
+				aliasDefs := map[ast.Expr]bool{}
+				for changed := true; changed; {
+					changed = false
+					ast.Inspect(lit.Body, func(x ast.Node) bool {
+						as, ok := x.(*ast.AssignStmt)
+						if !ok || len(as.Lhs) != len(as.Rhs) {
+							return true
+						}
+						for i, r := range as.Rhs {
+							o := objOf(info, as.Lhs[i])
+							if o == nil {
+								continue
+							}
+							if isCloneMethodValue(info, r) && !cloneFns[o] {
+								cloneFns[o] = true
+								changed = true
+							}
+							if as.Tok == token.DEFINE && !nodeContains(r, true, func(y ast.Node) bool {
+								call, ok := y.(*ast.CallExpr)
+								return ok && (isCloneMethodValue(info, call.Fun) || cloneFns[objOf(info, call.Fun)])
+							}) {
+								if root, _ := accessorPath(info, r, roots); root != nil && !roots[o] {
+									roots[o] = true
+									aliasDefs[r] = true
+									changed = true
+								}
+							}
+						}
+						return true
+					})
+				}
+				isCloner := func(e ast.Expr) bool {
+					return isCloneMethodValue(info, e) || cloneFns[objOf(info, e)]
+				}
 				// classify every maximal accessor path
 				var visit func(n ast.Node, ctx string)
 				bad := 0
@@ -95,6 +132,10 @@ func Sanitize(c *core.Ctx, rule string, p *packages.Package) {
 						"input component `"+exprString(e)+"` is used without passing through a component instance's Clone: original and clone share what it refers to")
 				}
 				visit = func(n ast.Node, ctx string) {
+					if e, ok := n.(ast.Expr); ok && aliasDefs[e] {
+						nUses++ // names a part of the input; its uses are judged where they occur
+						return
+					}
 					switch x := n.(type) {
 					case nil:
 						return
@@ -125,22 +166,28 @@ func Sanitize(c *core.Ctx, rule string, p *packages.Package) {
 							nUses++
 							return
 						}
-						// X.Clone(arg)
-						if isCloneMethodValue(info, x.Fun) && len(x.Args) == 1 {
+						// X.Clone(arg) / cloneElem(arg)
+						if isCloner(x.Fun) && len(x.Args) == 1 {
 							if r, _ := accessorPath(info, x.Args[0], roots); r != nil {
 								nUses++
-								visit(ast.Unparen(x.Fun).(*ast.SelectorExpr).X, "")
+								if se, ok := ast.Unparen(x.Fun).(*ast.SelectorExpr); ok {
+									visit(se.X, "")
+								}
 								return
 							}
 						}
 						// Map(coll, inst.Clone)
-						if len(x.Args) == 2 && isCloneMethodValue(info, x.Args[1]) {
+						if len(x.Args) == 2 && isCloner(x.Args[1]) {
 							if r, _ := accessorPath(info, x.Args[0], roots); r != nil {
 								nUses++
 								return
 							}
 						}
 					case ast.Expr:
+						if aliasDefs[x] {
+							nUses++ // names a part of the input; its uses are judged where they occur
+							return
+						}
 						if r, _ := accessorPath(info, x, roots); r != nil {
 							report(x)
 							return
